@@ -337,6 +337,10 @@ var (
 	// operations whose statement cannot be prepared (missing table / column): the error must be the
 	// same as alone, also for a goroutine that waits for another goroutine's failing preparation
 	badKinds = []string{"badraw", "badtable", "badexec", "badcol"}
+	// statements that are prepared like their valid twins (identical text) and fail when executed:
+	// the table's CHECK constraint refuses the value
+	badvalUses = []string{"update", "updates", "exec", "updcol", "save", "create"}
+	loopN      = 25 // "loop": the same single-row UPDATE text this many times
 	// column names as arguments (Select, Omit, Updates map keys, Where map keys, Pluck) in varied
 	// spellings: database name, field name, lowerCamel, UPPER_SNAKE, Title_Snake
 	spellKinds = []string{"spell", "spell", "spell"}
@@ -402,6 +406,7 @@ func genOp(t *rapid.T, pal palette, depth int) Op {
 	kinds = append(kinds, badKinds...)
 	kinds = append(kinds, spellKinds...)
 	kinds = append(kinds, moreKinds...)
+	kinds = append(kinds, "badval", "badval")
 	if pal.f1 || pal.f2 {
 		kinds = append(kinds, relKinds...)
 		kinds = append(kinds, "delassoc")
@@ -450,6 +455,13 @@ func fillOp(t *rapid.T, o *Op, pal palette) {
 		o.M = rapid.SampledFrom(pal.models()).Draw(t, "model")
 		o.B = rapid.IntRange(0, len(spellUses)-1).Draw(t, "use")
 		o.V = rapid.IntRange(0, 99).Draw(t, "columnAndSpelling")
+	case "badval":
+		o.M = rapid.SampledFrom(pal.models()).Draw(t, "model")
+		o.B = rapid.IntRange(0, len(badvalUses)-1).Draw(t, "use")
+		o.A = rapid.IntRange(1, 4).Draw(t, "likelyKey")
+	case "loop":
+		o.M = rapid.SampledFrom(pal.models()).Draw(t, "model")
+		o.A = rapid.IntRange(1, 2).Draw(t, "seededKey")
 	case "carried":
 		o.M = pal.carry.M
 		o.B = rapid.IntRange(0, len(carriedUses)-1).Draw(t, "use")
@@ -626,8 +638,23 @@ func genCase(t *rapid.T) *Case {
 	// a storm: every goroutine starts with the same statement text (a failing or a good one)
 	var storm *Op
 	if c.Warm != "targets" && rapid.IntRange(0, 2).Draw(t, "storm") == 0 {
-		o := Op{K: rapid.SampledFrom([]string{"badraw", "badtable", "badexec", "badcol", "first", "count"}).Draw(t, "stormKind")}
+		// three kinds of storm: a text that cannot be prepared; a read of the same model (overlapping
+		// scans: value pools, serializers, hooks); the same UPDATE text (shared patch map, refused values)
+		var kinds []string
+		switch rapid.IntRange(0, 2).Draw(t, "stormClass") {
+		case 0:
+			kinds = []string{"badraw", "badtable", "badexec", "badcol"}
+		case 1:
+			kinds = []string{"find", "find", "first", "take", "last", "rows", "count"}
+		default:
+			kinds = []string{"update", "updates", "updates", "loop", "loop"}
+		}
+		o := Op{K: rapid.SampledFrom(kinds).Draw(t, "stormKind")}
 		fillOp(t, &o, palette{})
+		if o.K == "updates" {
+			// every goroutine hands the SAME patch map to Updates, on a model with a tracked update time
+			o.M, o.V = rapid.SampledFrom([]int{mGadget, mWidget}).Draw(t, "tracked"), 2*rapid.IntRange(0, 4).Draw(t, "patch")
+		}
 		storm = &o
 	}
 	c.Programs = make([][]Op, c.G)
@@ -640,7 +667,19 @@ func genCase(t *rapid.T) *Case {
 		var first []Op
 		switch {
 		case storm != nil:
-			first = []Op{*storm}
+			o := *storm
+			if o.K == "loop" || o.K == "update" {
+				// the same UPDATE text from every goroutine, on a row of its own; every fourth or so with the
+				// value the CHECK constraint refuses (fails when executed, not when prepared)
+				if rapid.IntRange(0, 3).Draw(t, "refused") == 0 {
+					if o.K == "loop" {
+						o.B = 1
+					} else {
+						o = Op{K: "badval", M: o.M, A: o.A, B: 0}
+					}
+				}
+			}
+			first = []Op{o}
 		case c.Warm == "targets" && rapid.IntRange(0, 5).Draw(t, "ownerFirst") != 0:
 			// target warm, owners cold: the goroutine's first call is on an owner type
 			first = []Op{genOwnerOp(t)}
@@ -669,6 +708,26 @@ var errRollback = errors.New("c07: roll back")
 var carrying struct {
 	h       *gorm.DB
 	prepare bool // the case enables prepared statements per derived Session
+}
+
+// sharedArgs: argument values that several goroutines hand to their calls - the same map / struct
+// object, as a caller does who keeps one patch or one filter for a batch of requests. gorm only
+// reads them (maps for Updates / UpdateColumns / Where, a struct condition). Rebuilt for every run.
+var sharedArgs struct {
+	patch  [nModels][3]map[string]interface{}
+	cond   [nModels]map[string]interface{}
+	filter *GadgetFilter
+}
+
+func resetSharedArgs() {
+	for m := 0; m < nModels; m++ {
+		for v := 0; v < 3; v++ {
+			sharedArgs.patch[m][v] = changes(m, v)
+		}
+		col := firstColumn(m)
+		sharedArgs.cond[m] = map[string]interface{}{col: changes(m, 1)[col]}
+	}
+	sharedArgs.filter = &GadgetFilter{Name: "g1", Qty: 1}
 }
 
 // progress counts finished operations (of the one case that runs at a time); the deadlock watchdog reads it.
@@ -1067,6 +1126,8 @@ func exec(db *gorm.DB, g int, o Op) string {
 		var r *gorm.DB
 		if o.V%3 == 2 { // inline conditions
 			r = db.Order(modelTables[o.M]+".id").Find(out, modelTables[o.M]+".id BETWEEN ? AND ?", keyOf(g, 0), keyOf(g, rangeSize-1))
+		} else if o.V%3 == 1 { // a condition map all goroutines share
+			r = inRange(db, o.M, g).Where(sharedArgs.cond[o.M]).Order(modelTables[o.M] + ".id").Find(out)
 		} else {
 			r = inRange(db, o.M, g).Order(modelTables[o.M] + ".id").Find(out)
 		}
@@ -1102,8 +1163,8 @@ func exec(db *gorm.DB, g int, o Op) string {
 		r := db.Model(v).Update(col, ch[col])
 		return fmt.Sprintf("%s ra=%d", errText(r.Error), r.RowsAffected)
 	case "updates":
-		var with interface{} = changes(o.M, o.V)
-		if o.V%2 == 1 { // a struct: its non-zero fields
+		var with interface{} = sharedArgs.patch[o.M][o.V%3] // a patch map all goroutines share
+		if o.V%2 == 1 {                                     // a struct: its non-zero fields
 			v := build(o.M, g, o.A, 0, o.V)
 			reflect.ValueOf(v).Elem().FieldByName("ID").SetUint(0)
 			with = v
@@ -1116,6 +1177,54 @@ func exec(db *gorm.DB, g int, o Op) string {
 	case "delrange":
 		r := inRange(db, o.M, g).Where(modelTables[o.M]+".id >= ?", keyOf(g, o.A)).Delete(newModel(o.M))
 		return fmt.Sprintf("%s ra=%d", errText(r.Error), r.RowsAffected)
+	case "badval":
+		col := firstColumn(o.M)
+		bad := forbidden(o.M)
+		var r *gorm.DB
+		switch badvalUses[o.B] {
+		case "update":
+			r = db.Model(build(o.M, g, o.A, 0, 0)).Update(col, bad)
+		case "updates":
+			r = inRange(db.Model(newModel(o.M)), o.M, g).Where(modelTables[o.M]+".id >= ?", keyOf(g, o.A)).Updates(map[string]interface{}{col: bad})
+		case "exec":
+			r = db.Exec(fmt.Sprintf("UPDATE %s SET %s = ? WHERE id = ?", modelTables[o.M], col), bad, keyOf(g, o.A))
+		case "updcol":
+			r = db.Model(build(o.M, g, o.A, 0, 0)).UpdateColumn(col, bad)
+		default: // save / create a value whose first column is refused
+			v := build(o.M, g, o.A, 0, o.V)
+			f := reflect.ValueOf(v).Elem().FieldByName(modelColumns[o.M][0][0])
+			if f.Kind() == reflect.String {
+				f.SetString("FORBIDDEN")
+			} else {
+				f.SetInt(-77)
+			}
+			if badvalUses[o.B] == "save" {
+				r = db.Save(v)
+			} else {
+				r = db.Create(v)
+			}
+		}
+		return fmt.Sprintf("%s ra=%d via badval+%s", errText(r.Error), r.RowsAffected, badvalUses[o.B])
+	case "loop":
+		// the same single-row UPDATE text loopN times on a seeded row of the goroutine's own
+		col := firstColumn(o.M)
+		oks, errs, first := 0, 0, ""
+		for i := 0; i < loopN; i++ {
+			var val interface{} = changes(o.M, i%10)[col]
+			if o.B == 1 {
+				val = forbidden(o.M)
+			}
+			r := db.Model(build(o.M, g, o.A, 0, 0)).Update(col, val)
+			if r.Error != nil {
+				errs++
+				if first == "" {
+					first = fmt.Sprintf(" first error at #%d: %v", i, r.Error)
+				}
+			} else {
+				oks += int(r.RowsAffected)
+			}
+		}
+		return fmt.Sprintf("ok loop updated=%d failed=%d%s", oks, errs, first)
 	case "carried":
 		h := carrying.h
 		if carrying.prepare {
@@ -1221,7 +1330,7 @@ func exec(db *gorm.DB, g int, o Op) string {
 		if o.V%2 == 0 {
 			r = db.Model(build(o.M, g, o.A, 0, 0)).UpdateColumn(col, changes(o.M, o.V)[col])
 		} else {
-			r = db.Model(build(o.M, g, o.A, 0, 0)).UpdateColumns(changes(o.M, o.V))
+			r = db.Model(build(o.M, g, o.A, 0, 0)).UpdateColumns(sharedArgs.patch[o.M][o.V%3])
 		}
 		return fmt.Sprintf("%s ra=%d", errText(r.Error), r.RowsAffected)
 	case "rawscan":
@@ -1279,6 +1388,9 @@ func exec(db *gorm.DB, g int, o Op) string {
 		var cond interface{}
 		if o.M == mGadget {
 			cond = &GadgetFilter{Name: fmt.Sprintf("g%d", o.V), Qty: o.V} // a type used as condition only
+			if o.V%2 == 0 {
+				cond = sharedArgs.filter // one filter value all goroutines share
+			}
 		} else {
 			cond = build(o.M, g, o.A, 0, o.V)
 		}
@@ -1562,6 +1674,7 @@ func openCase(c *Case) *caseDB {
 	case "cond":
 		d.shared = db.Where("1 = 1").Session(&gorm.Session{})
 	}
+	resetSharedArgs()
 	carrying.h, carrying.prepare = nil, c.Sess != ""
 	if k := c.Carry; k != nil {
 		tb := modelTables[k.M]
@@ -1612,7 +1725,7 @@ func seed(db *sql.DB, G int) {
 			add(tb, "(%d,%d),(%d,%d)", k1, k1, k1, k2)
 		}
 		add("gadgets", "(%d,'seedg1',1,'[\"s\"]','L1','red',1,'2031-07-05 11:12:13+00:00','2031-07-05 11:12:13+00:00'),(%d,'seedg2',2,NULL,'L2','',2,'2031-07-05 11:12:13+00:00','2031-07-05 11:12:13+00:00')", k1, k2)
-		add("widgets", "(%d,'seedw1',1.5,NULL,'enc:seed%d'),(%d,'seedw2',2.5,NULL,'enc:seed%d')", k1, k1, k2, k2)
+		add("widgets", "(%d,'seedw1',1.5,NULL,'enc:seed%d','2031-07-05 11:12:13+00:00'),(%d,'seedw2',2.5,NULL,'enc:seed%d','2031-07-05 11:12:13+00:00')", k1, k1, k2, k2)
 		add("parcels", "(%d,'seedp1',5,%d,%d,%d,%d),(%d,'seedp2',6,%d,%d,NULL,NULL)", k1, k1, k1, k1, k1, k2, k1, k2)
 		for _, tb := range []string{"depots", "couriers", "customs", "sorters"} {
 			add(tb, "(%d,'seed1'),(%d,'seed2')", k1, k2)
@@ -2137,7 +2250,7 @@ func runCase(rt *rapid.T) {
 }
 
 func TestC07(t *testing.T) {
-	evid.Rule("C07: G in 2..32 goroutines (four size buckets) released by one barrier, each running 1-8 operations through ONE shared *gorm.DB (the opened handle, or one derived from it before the barrier: Session{}, WithContext, Session{NewDB}, a conditioned handle; in two thirds of the cases also a second shared Session handle that already carries 0-3 Where conditions, 0-7 Order columns and possibly Select/Joins/Preload, from which goroutines derive chains that add one more Order/Where/Select/Omit/Limit/Clauses/Joins/Preload/Not-Or before finishing) on explicit keys private to the goroutine. Operations: Create (single, []T, []*T 2-6 rows, nested associations, maps, []map, CreateInBatches, OnConflict), Save, FirstOrInit/FirstOrCreate with struct Attrs / map Assign, Find (chain and inline conditions, struct conditions of the model's and of a foreign type, smaller destination struct, Scopes, Not/Or groups, Distinct/Limit/Offset, Group/Having into maps, sub-query built from the shared handle), First/Take/Last, FindInBatches, Count, Pluck, Row, Rows+ScanRows, Raw.Scan, Exec, ToSQL, Preload incl. nested, relation Joins, Update/Updates (map, struct)/UpdateColumn(s), clause.Returning on update and delete, Delete (key, range, Unscoped, Select(clause.Associations)), Set/Get/InstanceSet/InstanceGet, Migrator HasTable/HasColumn (also through Table()), Transaction blocks (nested, rollback), manual Begin/SavePoint/RollbackTo/Commit, Connection blocks, Association Append/Replace/Delete/Clear/Find/Count, statements that cannot be prepared (Raw/Table/Exec on a missing table, a missing column; three texts each, shared by all goroutines), column names in five spellings for Select/Omit/Updates(map)/Where(map)/Pluck; a quarter of the plain operations run on a per-call Session with SkipHooks/QueryFields/FullSaveAssociations/NewDB/Context/SkipDefaultTransaction/DryRun/CreateBatchSize/Debug. Models: a cyclic family of six related types (belongs-to, has-one, has-many, many-to-many), a second family (one target type with four has-many/has-one owner types), three mutually unrelated many-to-many families (on a cold handle first used by different goroutines at the barrier), two relation-free types with a json serializer field, a field type that is its own stateful serializer, a Valuer/Scanner type, an embedded struct, tracked times, soft delete and hook methods. In a third of the cases all goroutines start with the same statement text (failing or good). Schema cache cold / one type parsed / only the shared target type parsed and queried (owners first used concurrently) / all parsed / all queried before the barrier; PrepareStmt off / Config.PrepareStmt / db.Session(&gorm.Session{PrepareStmt: true}) derived per call or once per goroutine; Config switches QueryFields, CreateBatchSize, FullSaveAssociations, TranslateError, PropagateUnscoped, an Info-level Logger, a NameReplacer naming strategy, a dialector without RETURNING, a Plugin registering callbacks (with Match) in every processor; default transactions on/off; pool unbounded or 1/2/4; GOMAXPROCS 1/2/4/default; generated Gosched points. Judged by the race detector (report count read after every case), by equality of every result (error texts, recovered panics included) and of all final rows with a serial run on a fresh database, and by a deadlock watchdog. Non-trivial = part of the schema cache is cold at the barrier (G >= 2 always), or warm cache with >= 4 goroutines and >= 1 association/preload/joins/nested-create operation; distinct = configuration + programs")
+	evid.Rule("C07: G in 2..32 goroutines (four size buckets) released by one barrier, each running 1-8 operations through ONE shared *gorm.DB (the opened handle, or one derived from it before the barrier: Session{}, WithContext, Session{NewDB}, a conditioned handle; in two thirds of the cases also a second shared Session handle that already carries 0-3 Where conditions, 0-7 Order columns and possibly Select/Joins/Preload, from which goroutines derive chains that add one more Order/Where/Select/Omit/Limit/Clauses/Joins/Preload/Not-Or before finishing) on explicit keys private to the goroutine. Operations: Create (single, []T, []*T 2-6 rows, nested associations, maps, []map, CreateInBatches, OnConflict), Save, FirstOrInit/FirstOrCreate with struct Attrs / map Assign, Find (chain and inline conditions, struct conditions of the model's and of a foreign type, smaller destination struct, Scopes, Not/Or groups, Distinct/Limit/Offset, Group/Having into maps, sub-query built from the shared handle), First/Take/Last, FindInBatches, Count, Pluck, Row, Rows+ScanRows, Raw.Scan, Exec, ToSQL, Preload incl. nested, relation Joins, Update/Updates (map, struct)/UpdateColumn(s), clause.Returning on update and delete, Delete (key, range, Unscoped, Select(clause.Associations)), Set/Get/InstanceSet/InstanceGet, Migrator HasTable/HasColumn (also through Table()), Transaction blocks (nested, rollback), manual Begin/SavePoint/RollbackTo/Commit, Connection blocks, Association Append/Replace/Delete/Clear/Find/Count, statements that cannot be prepared (Raw/Table/Exec on a missing table, a missing column; three texts each, shared by all goroutines), statements that are refused when executed (every table has a CHECK constraint; Update/Updates/Exec/UpdateColumn/Save/Create with the refused value, same text as the valid calls), loops of 25 identical single-row UPDATEs, patch / condition maps and a struct filter that all goroutines share as arguments, column names in five spellings for Select/Omit/Updates(map)/Where(map)/Pluck; a quarter of the plain operations run on a per-call Session with SkipHooks/QueryFields/FullSaveAssociations/NewDB/Context/SkipDefaultTransaction/DryRun/CreateBatchSize/Debug. Models: a cyclic family of six related types (belongs-to, has-one, has-many, many-to-many), a second family (one target type with four has-many/has-one owner types), three mutually unrelated many-to-many families (on a cold handle first used by different goroutines at the barrier), two relation-free types with a json serializer field, a field type that is its own stateful serializer, a Valuer/Scanner type, an embedded struct, tracked times, soft delete and hook methods. In a third of the cases all goroutines start with the same statement: a text that cannot be prepared, a read of one model (overlapping scans), or one UPDATE text (shared patch map, loops, a quarter of the goroutines with the refused value). Schema cache cold / one type parsed / only the shared target type parsed and queried (owners first used concurrently) / all parsed / all queried before the barrier; PrepareStmt off / Config.PrepareStmt / db.Session(&gorm.Session{PrepareStmt: true}) derived per call or once per goroutine; Config switches QueryFields, CreateBatchSize, FullSaveAssociations, TranslateError, PropagateUnscoped, an Info-level Logger, a NameReplacer naming strategy, a dialector without RETURNING, a Plugin registering callbacks (with Match) in every processor; default transactions on/off; pool unbounded or 1/2/4; GOMAXPROCS 1/2/4/default; generated Gosched points. Judged by the race detector (report count read after every case), by equality of every result (error texts, recovered panics included) and of all final rows with a serial run on a fresh database, and by a deadlock watchdog. Non-trivial = part of the schema cache is cold at the barrier (G >= 2 always), or warm cache with >= 4 goroutines and >= 1 association/preload/joins/nested-create operation; distinct = configuration + programs")
 	evid.Assume("SQLite's single-writer rule is hidden by the harness: connections run read_uncommitted and writers queue on one harness mutex (BEGIN..COMMIT or one autocommit write); write paths of two goroutines therefore overlap only outside transactions (SkipDefaultTransaction cases)")
 	evid.Assume("the runtime's schedule is sampled, not enumerated; the race detector reports unsynchronised conflicting accesses it observes within its history window")
 	if !raceEnabled {
